@@ -189,6 +189,10 @@ def scenarios(r, thorough):
     out.append(("same-batch", [(0, [rec(1, "from", 7), rec(2, "modify"), rec(3, "to", 7), rec(4, "from", 8)])], 4, 9))
     out.append(("unmatched-both", [(0, [rec(1, "to", 5), rec(2, "from", 6)]), (2, [rec(3, "to", 9)])], 4, 10))
     out.append(("two-renames-crossing", [(0, [rec(1, "from", 1), rec(2, "from", 2)]), (3, [rec(3, "to", 2), rec(4, "to", 1)])], 3, 10))
+    # two renames overlapping in time, every half in its own read: the first half of the first one is paired away while
+    # the consumer sleeps on it; the second one's first half must still wait for ITS delay
+    out.append(("two-renames-overlapping", [(0, [rec(1, "from", 1)]), (3, [rec(2, "from", 2)]), (1, [rec(3, "to", 1)]),
+                                            (2, [rec(4, "to", 2)])], 4, 14))
     out.append(("ignored-and-root-delete", [(0, [rec(1, "delete"), rec(2, "ignored")]),
                                             (1, [rec(3, "delself", root=True), rec(4, "ignored", root=True), rec(5, "create")]),
                                             (1, [rec(6, "create")])], 5, 8))
